@@ -20,6 +20,8 @@ type c28Variant struct {
 	Old      *netsim.Topo // if non-nil: an older generation of beacons (10 minutes earlier) from this topology
 	OldFirst bool         // order in which the two generations are handed to the combinator
 	Superset bool         // hand the combinator the up/down segments of every AS, not only those of src / dst
+	// Ext: ASes (by index) whose AS entries carry the optional signed extensions static info + discovery information
+	Ext func(as int) bool
 }
 
 func c28Variants(tp *netsim.Topo, thorough bool) []c28Variant {
@@ -69,7 +71,16 @@ func c28Variants(tp *netsim.Topo, thorough bool) []c28Variant {
 	}
 	vs = append(vs, c28Variant{Name: "2gen/new:epic:all", New: mod(epic(everyAS)), Old: mod(nil), OldFirst: true})
 	vs = append(vs, c28Variant{Name: "2gen/old:epic:all", New: mod(nil), Old: mod(epic(everyAS))})
+	// optional signed extensions (static info, discovery information), alone and together with EPIC
+	vs = append(vs, c28Variant{Name: "ext:all", New: mod(nil), Ext: everyAS})
+	vs = append(vs, c28Variant{Name: "ext:even-ases", New: mod(nil), Ext: func(a int) bool { return a%2 == 0 }})
+	vs = append(vs, c28Variant{Name: "ext:odd-ases", New: mod(nil), Ext: func(a int) bool { return a%2 == 1 }})
+	vs = append(vs, c28Variant{Name: "ext:all+epic:all", New: mod(epic(everyAS)), Ext: everyAS})
+	vs = append(vs, c28Variant{Name: "2gen/new:ext:all+epic:all", New: mod(epic(everyAS)), Old: mod(nil), Ext: everyAS})
 	if thorough {
+		for a := range tp.ASes {
+			vs = append(vs, c28Variant{Name: fmt.Sprintf("ext:only-as%d", a), New: mod(nil), Ext: func(x int) bool { return x == a }})
+		}
 		vs = append(vs, c28Variant{Name: "epic:all/superset", New: mod(epic(everyAS)), Superset: true})
 		for a := range tp.ASes {
 			vs = append(vs, c28Variant{Name: fmt.Sprintf("epic:all-but-as%d", a), New: mod(epic(func(x int) bool { return x != a }))})
@@ -135,7 +146,7 @@ type c28SegSet struct {
 
 // c28Beacon builds the network(s) of the variant and runs the real beaconing. Must run inside the bubble.
 func c28Beacon(v c28Variant, maxLen int) (*c28SegSet, error) {
-	n, err := netsim.BuildControlPlane(v.New)
+	n, err := netsim.BuildControlPlaneExt(v.New, v.Ext)
 	if err != nil {
 		return nil, fmt.Errorf("build: %w", err)
 	}
